@@ -36,6 +36,7 @@ Inv ==
        /\ (dpc[d] = "returned" => (dres[d] = "ctx" \/ (bpc = "finished" /\ dres[d] = Out)))
   /\ (anyDerefReturned => bpc = "finished")
   /\ (completedUncancelled => (done /\ ~cancelled))
+  /\ (bodyCtxCancelled => cancelled)
   /\ ((cpc = "returned" /\ startedAfter) => (cres = "false" /\ completedUncancelled))
   /\ ((cpc = "returned" /\ sawRunning) => (cres = "true" /\ cancelled /\ bodyCtxCancelled))
 
